@@ -83,7 +83,13 @@ def one_tree(ck: Check, root: Node, reqs: list[str], impl: list[str], inputs: li
 
     rng = ck.rng
     style = Style(seq_numbers=rng.random() < 0.3, ident_area=rng.random() < 0.2, comments=rng.random() < 0.2)
-    text = render([root], style)
+    inject: dict[int, list[Node]] = {}
+    if rng.random() < 0.25:
+        # a stand-alone level-77 item (working storage) written between the record's entries: no part of the record, occupies nothing in it
+        where = rng.choice(list(preorder(root)))
+        inject[id(where)] = [Node(77, "WS-COUNTER", pic=rng.choice(["9(4)", "X(7)", "S9(5)V99"]), width=0)]
+        ck.histogram["level-77-beside-the-record"] += 1
+    text = render([root], style, inject)
     spec = spec_layout(root, {})
     paths = list(spec)
     extras = extra_paths(root, spec, rng)
